@@ -517,6 +517,56 @@ func checkRefusedNoIO(p *Prog, r *Report, ru *Rule, a *connectAnchors) {
 			uses := 0
 			var visit func(v ssa.Value)
 			var visitCell func(addr ssa.Value)
+			/* A function value which works on the stream (a method value,
+			a literal which captured it): making it is not I/O, calling it
+			is; it may be handed to the proxy closure and nowhere else. */
+			var visitFn func(v ssa.Value, depth int)
+			visitFn = func(v ssa.Value, depth int) {
+				if depth > 6 || nil == v.Referrers() {
+					return
+				}
+				for _, ref := range *v.Referrers() {
+					switch x := ref.(type) {
+					case *ssa.DebugRef:
+					case *ssa.Phi, *ssa.ChangeType, *ssa.MakeInterface:
+						visitFn(x.(ssa.Value), depth+1)
+					case *ssa.MakeClosure:
+						if isProxyArg(x, a.Fn, proxyIdx) {
+							continue
+						}
+						ok = false
+						ru.Bad(c, posOf(x), "a function working on stream %s is captured by a function literal other than the proxy closure", pa.Name())
+					case *ssa.Store:
+						al, isAlloc := x.Addr.(*ssa.Alloc)
+						if x.Val != v || !isAlloc {
+							ok = false
+							ru.Bad(c, posOf(x), "a function working on stream %s is stored outside the proxy closure", pa.Name())
+							continue
+						}
+						for _, r2 := range *al.Referrers() {
+							switch y := r2.(type) {
+							case *ssa.Store, *ssa.DebugRef:
+							case *ssa.UnOp:
+								visitFn(y, depth+1)
+							case *ssa.MakeClosure:
+								if !isProxyArg(y, a.Fn, proxyIdx) {
+									ok = false
+									ru.Bad(c, posOf(y), "a function working on stream %s is captured by a function literal other than the proxy closure", pa.Name())
+								}
+							default:
+								ok = false
+								ru.Bad(c, posOf(r2), "a function working on stream %s is used by %T", pa.Name(), r2)
+							}
+						}
+					case ssa.CallInstruction:
+						ok = false
+						ru.Bad(c, posOf(x), "a function working on stream %s is called (or passed on) outside the proxy closure", pa.Name())
+					default:
+						ok = false
+						ru.Bad(c, posOf(ref), "a function working on stream %s is used by %T outside the proxy closure", pa.Name(), ref)
+					}
+				}
+			}
 			visitCell = func(addr ssa.Value) {
 				for _, ref := range *addr.Referrers() {
 					switch x := ref.(type) {
@@ -562,15 +612,39 @@ func checkRefusedNoIO(p *Prog, r *Report, ru *Rule, a *connectAnchors) {
 						if isProxyArg(x, a.Fn, proxyIdx) {
 							continue
 						}
+						/* A literal which merely hands the stream on to an
+						admitting function is looked into; a method value
+						of the stream, or a literal which works on it, is a
+						function which does the I/O when called. */
 						cf := x.Fn.(*ssa.Function)
+						forwards := "" == cf.Synthetic
 						for k, b := range x.Bindings {
-							if b == v {
-								visit(cf.FreeVars[k])
+							if b == v && (k >= len(cf.FreeVars) || !onlyForwards(cf.FreeVars[k], streamFns, 0)) {
+								forwards = false
 							}
 						}
+						if forwards {
+							for k, b := range x.Bindings {
+								if b == v {
+									visit(cf.FreeVars[k])
+								}
+							}
+							continue
+						}
+						visitFn(x, 0)
 					case *ssa.MakeInterface:
 						visit(x)
 					case *ssa.ChangeInterface:
+						visit(x)
+					case *ssa.TypeAssert:
+						/* Asking what the stream can do is not I/O; what
+						comes out is the stream still. */
+						visit(x)
+					case *ssa.Extract:
+						if 0 == x.Index {
+							visit(x)
+						}
+					case *ssa.Phi:
 						visit(x)
 					case ssa.CallInstruction:
 						if sc := x.Common().StaticCallee(); nil != sc && streamFns[sc] {
@@ -607,12 +681,23 @@ func checkRefusedNoIO(p *Prog, r *Report, ru *Rule, a *connectAnchors) {
 }
 
 func isProxyArg(mc *ssa.MakeClosure, admit *ssa.Function, idx int) bool {
-	for _, ref := range *mc.Referrers() {
-		if ci, ok := ref.(ssa.CallInstruction); ok && ci.Common().StaticCallee() == admit && idx < len(ci.Common().Args) && ci.Common().Args[idx] == ssa.Value(mc) {
-			return true
+	/* Directly, or converted to a named function type on the way. */
+	var is func(v ssa.Value, depth int) bool
+	is = func(v ssa.Value, depth int) bool {
+		if depth > 3 || nil == v.Referrers() {
+			return false
 		}
+		for _, ref := range *v.Referrers() {
+			if ci, ok := ref.(ssa.CallInstruction); ok && ci.Common().StaticCallee() == admit && idx < len(ci.Common().Args) && ci.Common().Args[idx] == v {
+				return true
+			}
+			if ct, ok := ref.(*ssa.ChangeType); ok && is(ct, depth+1) {
+				return true
+			}
+		}
+		return false
 	}
-	return false
+	return is(mc, 0)
 }
 
 func isIOStream(t types.Type) bool {
@@ -698,4 +783,29 @@ func checkHandlerWiring(p *Prog, r *Report, ru *Rule) {
 	if n < 2 {
 		ru.Unproven("routes", routes[0].Pos, "routes /i/{id} and /o/{id} not both registered")
 	}
+}
+
+// onlyForwards: every use of the stream value v (in the function it belongs
+// to) hands it to one of the admitting functions, possibly converted between
+// interface types.
+func onlyForwards(v ssa.Value, streamFns map[*ssa.Function]bool, depth int) bool {
+	if depth > 4 || nil == v.Referrers() {
+		return false
+	}
+	for _, ref := range *v.Referrers() {
+		switch x := ref.(type) {
+		case *ssa.DebugRef:
+		case *ssa.MakeInterface, *ssa.ChangeInterface:
+			if !onlyForwards(x.(ssa.Value), streamFns, depth+1) {
+				return false
+			}
+		case ssa.CallInstruction:
+			if sc := x.Common().StaticCallee(); nil == sc || !streamFns[sc] {
+				return false
+			}
+		default:
+			return false
+		}
+	}
+	return true
 }
